@@ -620,6 +620,7 @@ def emit_module(m, W, meta, defs, def_weight, def_nolaw, chunk, def_cond):
 
 
 def main():
+    emit.load_pinned()
     args = sys.argv[1:]
     out = os.path.join(HERE, '..', '..', 'lean')
     jpath, chunk = None, 12
